@@ -5,8 +5,12 @@ package bcv
 
 import (
 	"fmt"
+	"sort"
+	"strings"
 
 	"github.com/ozanh/ugo"
+
+	"verif/internal/uv"
 )
 
 // Verify checks bc and returns the first problem found ("" when well formed).
@@ -116,4 +120,45 @@ func verifyFunc(bc *ugo.Bytecode, f *ugo.CompiledFunction, name string) string {
 		i += 1 + off
 	}
 	return ""
+}
+
+// Fingerprint is a structural digest of everything reachable from bc: main and
+// constant functions (instructions, locals, params, source maps), constants
+// (canonical value text), file set (names, sizes, line tables) and NumModules.
+// Two fingerprints are equal iff the bytecodes are structurally identical.
+func Fingerprint(bc *ugo.Bytecode) string {
+	var sb strings.Builder
+	fp := func(f *ugo.CompiledFunction) {
+		fmt.Fprintf(&sb, "F[%x|p%d|l%d|v%v|", f.Instructions, f.NumParams, f.NumLocals, f.Variadic)
+		keys := make([]int, 0, len(f.SourceMap))
+		for k := range f.SourceMap {
+			keys = append(keys, k)
+		}
+		sort.Ints(keys)
+		for _, k := range keys {
+			fmt.Fprintf(&sb, "%d:%d,", k, f.SourceMap[k])
+		}
+		fmt.Fprintf(&sb, "|free%d]", len(f.Free))
+	}
+	if bc.Main != nil {
+		fp(bc.Main)
+	}
+	for _, c := range bc.Constants {
+		if f, ok := c.(*ugo.CompiledFunction); ok {
+			fp(f)
+		} else {
+			sb.WriteString(uv.Repr(c))
+		}
+		sb.WriteByte(';')
+	}
+	fmt.Fprintf(&sb, "|mods%d|", bc.NumModules)
+	if bc.FileSet != nil {
+		fmt.Fprintf(&sb, "fs%d:", bc.FileSet.Base)
+		for _, f := range bc.FileSet.Files {
+			if f != nil {
+				fmt.Fprintf(&sb, "(%s,%d,%d,%v)", f.Name, f.Base, f.Size, f.Lines)
+			}
+		}
+	}
+	return sb.String()
 }
